@@ -4,6 +4,15 @@ correspondence between `__getitem__` of the three classes and the Lean model
 
 case = {"cls": "ss"|"tf"|"frd", "sys": {...}, "rows": sel, "cols": sel, "cfg": [prefix, suffix] | None}
 sel  = ["I", k] | ["N", name] | ["S", a, b, c] | ["L", [["I", k] | ["N", name], ...]] | ["X", kind]
+       | ["X", "tup", [items]]   (a tuple of ints / names: not a selector, must raise)
+
+history case (stream `hist`, class HistStream below) =
+       {"sel": "hist", "cfg": ..., "syss": [{"cls":, "sys":}], "store": [sel, ...],
+        "calls": [{"s": system number, "r": row variable, "c": column variable, "kc": "tuple"|"list"}
+                  | {"w": variable, "to": ["L", items]}       (the caller edits its list in place)
+                  | {"rl": system number, "outs": [...], "ins": [...]}]}   (the caller relabels the system:
+                                                                 update_names; either key may be absent)
+the selector OBJECTS of `store` are built once and the same objects are used by every call.
 """
 import itertools
 import re
@@ -84,9 +93,37 @@ def sel_obj(sel):
     if k == "L":
         return [it[1] for it in sel[1]]
     if k == "X":
+        if sel[1] == "tup":
+            return tuple(it[1] for it in sel[2])
         return {"float": 0.0, "none": None, "npint": np.int64(0), "ndarray": np.array([0]),
                 "tuple": (0,)}[sel[1]]
     raise ValueError(k)
+
+
+def obj_sel(o, was):
+    """canonical form of a selector object as it is *now* (`was`: the selector it was built from);
+    anything that is not a selector of the modelled space any more is ["?", repr]"""
+    if type(o) is int:
+        return ["I", o]
+    if type(o) is str:
+        return ["N", o]
+    if type(o) is slice:
+        return ["S", o.start, o.stop, o.step]
+    if type(o) is list:
+        items = []
+        for x in o:
+            if type(x) is int:
+                items.append(["I", x])
+            elif type(x) is str:
+                items.append(["N", x])
+            else:
+                return ["?", repr(o)[:80]]
+        return ["L", items]
+    if was[0] == "X":
+        fresh = sel_obj(was)
+        if type(o) is type(fresh) and repr(o) == repr(fresh):
+            return [x for x in was]
+    return ["?", repr(o)[:80]]
 
 
 def sel_tokens(sel):
@@ -294,6 +331,8 @@ class C17(Family):
     # model `getitem ssCtor / tfCtor / frdCtor` in Props/C17GenItem*.lean
     extra_modules += ["CtrlVerif.Props.C17GenItemSS", "CtrlVerif.Props.C17GenItemTF",
                       "CtrlVerif.Props.C17GenItemFRD", "CtrlVerif.Props.C17GenItem"]
+    # call histories (selector objects kept by the caller and used again): Model/IndexHist.lean
+    extra_modules += ["CtrlVerif.Props.C17Hist"]
 
     def pre_build(self):
         import os
@@ -485,27 +524,27 @@ class C17(Family):
         ]
 
     # ---- execution ----------------------------------------------------------------
-    def line(self, case):
-        cls, sysd = case["cls"], case["sys"]
+    def sys_tokens(self, cls, sysd, cfg):
         outs, ins = labels_of(sysd)
-        pre, suf = case["cfg"] or DEFAULT_CFG
+        pre, suf = cfg or DEFAULT_CFG
         name = sysd["name"] if sysd["name"] is not None else PLACEHOLDER
-        return "idx %s s:%s s:%s s:%s %s %d %d %s %s %s %s %s" % (
+        return "%s s:%s s:%s s:%s %s %d %d %s %s %s" % (
             cls, pre, suf, name, sysd["dt"], sysd["p"], sysd["m"],
-            " ".join("s:" + s for s in outs), " ".join("s:" + s for s in ins),
-            body_tokens(cls, sysd), sel_tokens(case["rows"]), sel_tokens(case["cols"]))
+            " ".join("s:" + s for s in outs), " ".join("s:" + s for s in ins), body_tokens(cls, sysd))
 
-    def impl(self, case):
-        cls = case["cls"]
-        sys_ = build(cls, case["sys"])
+    def line(self, case):
+        return "idx %s %s %s" % (self.sys_tokens(case["cls"], case["sys"], case["cfg"]),
+                                 sel_tokens(case["rows"]), sel_tokens(case["cols"]))
+
+    def index_once(self, cls, sys_, key, cfg):
+        """sys_[key] under the configuration `cfg`, canonical result; the operand is re-read"""
         orig = canon_sys(cls, sys_)
-        key = (sel_obj(case["rows"]), sel_obj(case["cols"]))
         saved = None
-        if case["cfg"] is not None:
+        if cfg is not None:
             saved = (ct.config.defaults['iosys.indexed_system_name_prefix'],
                      ct.config.defaults['iosys.indexed_system_name_suffix'])
-            ct.config.defaults['iosys.indexed_system_name_prefix'] = case["cfg"][0]
-            ct.config.defaults['iosys.indexed_system_name_suffix'] = case["cfg"][1]
+            ct.config.defaults['iosys.indexed_system_name_prefix'] = cfg[0]
+            ct.config.defaults['iosys.indexed_system_name_suffix'] = cfg[1]
         try:
             r = sys_[key]
             res = {"ok": canon_sys(cls, r)}
@@ -520,10 +559,17 @@ class C17(Family):
                 ct.config.defaults['iosys.indexed_system_name_prefix'] = saved[0]
                 ct.config.defaults['iosys.indexed_system_name_suffix'] = saved[1]
         res["orig_name"] = orig["name"]
+        res["orig_labels"] = [orig["outs"], orig["ins"]]
         # the operand must be the system described by the case (and must not have been changed)
         after = canon_sys(cls, sys_)
         res["operand_ok"] = (after == orig)
         return res
+
+    def impl(self, case):
+        cls = case["cls"]
+        sys_ = build(cls, case["sys"])
+        key = (sel_obj(case["rows"]), sel_obj(case["cols"]))
+        return self.index_once(cls, sys_, key, case["cfg"])
 
     def parse_model(self, case, out):
         if out.startswith("err "):
@@ -695,4 +741,407 @@ class C17(Family):
 
 
 from families import select_streams as _sel      # direct stream for _process_subsys_index
-FAMILY = _sel.extend(C17, _sel.SubsysStream())
+
+
+# ----------------------------------------------------------------------------
+# call histories: selector objects kept by the caller and used again
+# ----------------------------------------------------------------------------
+
+LABEL_POOLS = [(["x", "yy", "z_3"], ["a", "b-1", "c"]), (["1", "0", "2"], ["2", "1", "0"]),
+               (["a", "b", "c"], ["c", "a", "b"]), (["y[0]", "y[1]", "y[2]"], ["u[0]", "u[1]", "u[2]"]),
+               (["vel", "pos", "acc"], ["u1", "u2", "u3"])]
+
+
+def sel_kind(sel):
+    """kind of selector object the caller keeps"""
+    if sel[0] == "L":
+        ks = {it[0] for it in sel[1]}
+        return "list:" + ("empty" if not ks else "names" if ks == {"N"} else "ints" if ks == {"I"} else "mixed")
+    if sel[0] == "X":
+        return "tuple" if sel[1] in ("tup", "tuple") else "other:" + sel[1]
+    return {"I": "int", "N": "name", "S": "slice"}[sel[0]]
+
+
+def has_names(sel):
+    return sel[0] == "N" or (sel[0] == "L" and any(it[0] == "N" for it in sel[1])) or sel[0] == "X"
+
+
+class HistStream(_sel.Stream):
+    """The caller keeps selector objects (lists of names, lists of ints, mixed lists, tuples, single
+    names / ints / slices, non-selector objects) in variables and uses the SAME objects in several
+    indexing calls: on a second system that carries the names at other positions (or lacks one, or has
+    one more), on a system of another class, on the first system again, for rows and columns of one
+    call, inside a key container (tuple or list) that is itself kept; between two calls the caller may
+    edit one of its lists in place (the next call must see the edit).  Checked after every call: the
+    result (against the model's `runHist` and the oracle of the property, with the selectors the
+    caller WROTE) and the caller's objects (must be what the caller wrote)."""
+    name = "hist"
+    rule = ("call histories of 2-4 indexing calls that share selector OBJECTS kept by the caller (lists of "
+            "names / ints / mixed, tuples, names, ints, slices, non-selectors; 2-4 objects): second system = "
+            "first system's labels permuted, one dropped, one added or one renamed, same or other class "
+            "(ss/tf/frd), shapes 1..3; call patterns first>second, first>second>first, same system twice, "
+            "one object for rows and columns, key container tuple or (name-free selectors) list kept across "
+            "calls, the caller editing one of its lists in place between two calls (20 %), the caller relabelling a "
+            "system (update_names: labels rotated or one renamed) before indexing it again (20 %); after every call the result is compared with the model's history semantics "
+            "(Index.runHist) and the caller's objects with what the caller wrote")
+
+    def __init__(self):
+        self.base = C17()
+
+    # ---- generation ------------------------------------------------------------------
+    def variant(self, rng, labels, extra):
+        """the same names at other positions; sometimes one dropped / added / renamed"""
+        l = list(labels)
+        r = rng.random()
+        if r < 0.55 or (len(l) == 1 and r < 0.7):
+            pass
+        elif r < 0.7:
+            l.pop(rng.randrange(len(l)))
+        elif r < 0.85 and len(l) < 3:
+            l.append(extra)
+        else:
+            l[rng.randrange(len(l))] = extra
+        if len(l) > 1:
+            k = rng.randrange(1, len(l))
+            l = l[k:] + l[:k]                  # never the identity arrangement
+            if rng.random() < 0.4:
+                l.reverse()
+        return l
+
+    def kept_sel(self, rng, sp, n, labels):
+        """a selector object a caller would keep (valid on the first system most of the time)"""
+        r = rng.random()
+        if r < 0.35:
+            k = rng.randint(1, n)
+            return ["L", [["N", labels[v]] for v in rng.sample(range(n), k)]]
+        if r < 0.50:
+            k = rng.randint(1, n)
+            return ["L", [["N", labels[v]] if rng.random() < 0.5 else ["I", v - n * rng.randint(0, 1)]
+                          for v in rng.sample(range(n), k)]]
+        if r < 0.62:
+            k = rng.randint(0, n)
+            return ["L", [["I", v - n * rng.randint(0, 1)] for v in rng.sample(range(n), k)]]
+        if r < 0.72:
+            return ["N", rng.choice(labels)]
+        if r < 0.80:
+            return rng.choice(sp["namelist"])          # incl. unknown names
+        if r < 0.88:
+            return self.base.rnd_sel(rng, sp, n)
+        if r < 0.96:
+            k = rng.randint(0, 3)
+            return ["X", "tup", [["N", rng.choice(labels)] if rng.random() < 0.5 else ["I", rng.randrange(-n, n)]
+                                 for _ in range(k)]]
+        return rng.choice(sp["bad"])
+
+    def one(self, rng):
+        b = self.base
+        classes = ("ss", "tf", "frd")
+        cls1 = rng.choice(classes)
+        cls2 = cls1 if rng.random() < 0.6 else rng.choice(classes)
+        p, m = rng.choice([1, 2, 2, 3, 3]), rng.choice([1, 2, 2, 3])
+        po, pi = rng.choice(LABEL_POOLS)
+        s1 = b.rnd_sys(rng, cls1, p, m)
+        s1["outs"], s1["ins"] = po[:p], pi[:m]
+        if po[0] == "y[0]" and rng.random() < 0.5:
+            s1["outs"], s1["ins"] = None, None          # default labels, spelled by the constructor
+        outs, ins = labels_of(s1)
+        o2, i2 = self.variant(rng, outs, "w"), self.variant(rng, ins, "v")
+        s2 = b.rnd_sys(rng, cls2, len(o2), len(i2))
+        s2["outs"], s2["ins"] = o2, i2
+        if s2["name"] is not None and s2["name"] == s1["name"]:
+            s2["name"] = s2["name"] + "2"
+        syss = [{"cls": cls1, "sys": s1}, {"cls": cls2, "sys": s2}]
+        spr, spc = b.space(p, outs, ins), b.space(m, ins, outs)
+        nr, nc = rng.choice([1, 1, 2]), rng.choice([1, 1, 2])
+        store = [self.kept_sel(rng, spr, p, outs) for _ in range(nr)] + \
+                [self.kept_sel(rng, spc, m, ins) for _ in range(nc)]
+        pat = rng.choice([[0, 1], [0, 1], [0, 1], [0, 1, 0], [1, 0], [0, 0], [1, 0, 1], [0, 1, 1, 0]])
+        calls = []
+        both = rng.random() < 0.08          # one object for rows and columns
+        ever_names = [has_names(x) for x in store]
+        curlab = [[list(outs), list(ins)], [list(o2), list(i2)]]
+        for k, sn in enumerate(pat):
+            if k and rng.random() < 0.2:    # the caller relabels the system it is about to index
+                ev = {"rl": sn}
+                for ax, key, extra in ((0, "outs", "w2"), (1, "ins", "v2")):
+                    if rng.random() < 0.65:
+                        l = list(curlab[sn][ax])
+                        if len(l) > 1 and rng.random() < 0.75:
+                            j = rng.randrange(1, len(l))
+                            l = l[j:] + l[:j]
+                        else:
+                            l[rng.randrange(len(l))] = extra if extra not in l else extra + "x"
+                        ev[key] = l
+                        curlab[sn][ax] = l
+                if len(ev) > 1:
+                    calls.append(ev)
+            r = rng.randrange(nr) if k else 0
+            c = nr + (rng.randrange(nc) if k else 0)
+            if both:
+                c = r
+            if k and rng.random() < 0.2:    # the caller edits one of its lists in place before this call
+                v = rng.choice([r, c])
+                if store[v][0] == "L":
+                    for _ in range(6):
+                        to = self.kept_sel(rng, spr, p, outs) if v < nr else self.kept_sel(rng, spc, m, ins)
+                        if to[0] == "L":
+                            calls.append({"w": v, "to": to})
+                            ever_names[v] = ever_names[v] or has_names(to)
+                            break
+            calls.append({"s": sn, "r": r, "c": c, "kc": "tuple"})
+        for call in calls:                   # a kept key list [rows, cols]: name-free selectors only
+            if "s" in call and not ever_names[call["r"]] and not ever_names[call["c"]] and rng.random() < 0.3:
+                call["kc"] = "list"
+        return {"sel": "hist", "cfg": b.rnd_cfg(rng), "syss": syss, "store": store, "calls": calls}
+
+    def generate(self, rng, tier):
+        return [self.one(rng) for _ in range(450 if tier == "quick" else 6000)]
+
+    def corpus(self):
+        """a list of names kept by the caller and used on a second system that carries the names at other
+        positions (the shape of seeded change C17-m8), one per class; a kept key list; a kept tuple"""
+        out = []
+        b = self.base
+        rng = __import__("random").Random(17)
+        for cls in ("ss", "tf", "frd"):
+            s1 = b.rnd_sys(rng, cls, 3, 2)
+            s1.update(outs=["pos", "vel", "acc"], ins=["u1", "u2"], name="P1", dt="C")
+            s2 = b.rnd_sys(rng, cls, 3, 2)
+            s2.update(outs=["acc", "pos", "vel"], ins=["u2", "u1"], name="P2", dt="C")
+            out.append({"sel": "hist", "cfg": None, "syss": [{"cls": cls, "sys": s1}, {"cls": cls, "sys": s2}],
+                        "store": [["L", [["N", "vel"], ["N", "pos"]]], ["L", [["N", "u2"]]]],
+                        "calls": [{"s": 0, "r": 0, "c": 1, "kc": "tuple"}, {"s": 1, "r": 0, "c": 1, "kc": "tuple"}]})
+        s1, s2 = out[0]["syss"]
+        out.append({"sel": "hist", "cfg": None, "syss": [s1, s2],
+                    "store": [["L", [["I", -1], ["I", 0]]], ["S", None, None, -1]],
+                    "calls": [{"s": 0, "r": 0, "c": 1, "kc": "list"}, {"s": 1, "r": 0, "c": 1, "kc": "list"}]})
+        out.append({"sel": "hist", "cfg": None, "syss": [s1, s2],
+                    "store": [["X", "tup", [["N", "vel"], ["N", "pos"]]], ["N", "u1"]],
+                    "calls": [{"s": 0, "r": 0, "c": 1, "kc": "tuple"}, {"s": 1, "r": 0, "c": 1, "kc": "tuple"}]})
+        out.append({"sel": "hist", "cfg": None, "syss": [s1, s2],       # the caller appends to its list
+                    "store": [["L", [["N", "vel"]]], ["S", None, None, None]],
+                    "calls": [{"s": 0, "r": 0, "c": 1, "kc": "tuple"}, {"w": 0, "to": ["L", [["N", "vel"], ["N", "acc"]]]},
+                              {"s": 1, "r": 0, "c": 1, "kc": "tuple"}]})
+        out.append({"sel": "hist", "cfg": None, "syss": [out[1]["syss"][0]],     # relabelled between two calls
+                    "store": [["L", [["N", "vel"], ["N", "pos"]]], ["N", "u2"]],
+                    "calls": [{"s": 0, "r": 0, "c": 1, "kc": "tuple"},
+                              {"rl": 0, "outs": ["vel", "acc", "pos"], "ins": ["u2", "u1"]},
+                              {"s": 0, "r": 0, "c": 1, "kc": "tuple"}]})
+        return out
+
+    # ---- execution ----------------------------------------------------------------------
+    def timeline(self, case):
+        """[(call, the caller's selectors at the time of the call, the systems as labelled at that time)],
+        the selectors at the end"""
+        cur = list(case["store"])
+        syss = list(case["syss"])
+        out = []
+        for ev in case["calls"]:
+            if "w" in ev:
+                cur = cur[:ev["w"]] + [ev["to"]] + cur[ev["w"] + 1:]
+            elif "rl" in ev:
+                d = syss[ev["rl"]]
+                sd = dict(d["sys"])
+                o, i = labels_of(sd)
+                sd["outs"], sd["ins"] = list(ev.get("outs", o)), list(ev.get("ins", i))
+                syss = syss[:ev["rl"]] + [dict(d, sys=sd)] + syss[ev["rl"] + 1:]
+            else:
+                out.append((ev, cur, syss))
+        return out, cur
+
+    def step_case(self, case, k):
+        call, cur, syss = self.timeline(case)[0][k]
+        d = syss[call["s"]]
+        return {"cls": d["cls"], "sys": d["sys"], "cfg": case["cfg"],
+                "rows": cur[call["r"]], "cols": cur[call["c"]]}
+
+    def line(self, case):
+        b = self.base
+        toks, k = [], 0
+        tl = self.timeline(case)[0]
+        for c in case["calls"]:
+            if "w" in c:
+                toks.append("W %d %s" % (c["w"], sel_tokens(c["to"])))
+            elif "s" in c:                    # (a relabelling is not an event of the model: the call that
+                d = tl[k][2][c["s"]]          #  follows carries the system as it is labelled then)
+                k += 1
+                toks.append("%s %d %d" % (b.sys_tokens(d["cls"], d["sys"], case["cfg"]), c["r"], c["c"]))
+        return "idx hist %d %s %d %s" % (
+            len(case["store"]), " ".join(sel_tokens(x) for x in case["store"]), len(toks), " ".join(toks))
+
+    def impl(self, case):
+        b = self.base
+        store = list(case["store"])
+        objs = [sel_obj(x) for x in store]                    # built once, used by every call
+        syss = [build(d["cls"], d["sys"]) for d in case["syss"]]
+        keys = {}
+        steps = []
+        for call in case["calls"]:
+            if "w" in call:                                   # the caller edits its own list, in place
+                assert store[call["w"]][0] == "L" and call["to"][0] == "L"
+                objs[call["w"]][:] = sel_obj(call["to"])
+                store[call["w"]] = call["to"]
+                continue
+            if "rl" in call:                                  # the caller relabels one of its systems
+                kw = {k2: list(call[k1]) for k1, k2 in (("outs", "outputs"), ("ins", "inputs")) if k1 in call}
+                syss[call["rl"]].update_names(**kw)
+                continue
+            kk = (call["r"], call["c"], call["kc"])
+            if kk not in keys:                                # the key container is kept as well
+                pair = (objs[call["r"]], objs[call["c"]])
+                keys[kk] = pair if call["kc"] == "tuple" else list(pair)
+            res = b.index_once(case["syss"][call["s"]]["cls"], syss[call["s"]], keys[kk], case["cfg"])
+            res["store"] = [obj_sel(o, x) for o, x in zip(objs, store)]
+            bad_keys = []
+            for (r, c, kc), key in keys.items():
+                now = [obj_sel(o, x) for o, x in zip(key, (store[r], store[c]))] if len(key) == 2 else None
+                if now != [store[r], store[c]] or type(key) is not (tuple if kc == "tuple" else list):
+                    bad_keys.append({"was": [store[r], store[c]], "now": now if now is not None else repr(key)[:80]})
+            res["bad_keys"] = bad_keys
+            steps.append(res)
+        return {"steps": steps}
+
+    def parse_sels(self, toks):
+        out, i = [], 0
+        def item(i):
+            return (["I", int(toks[i + 1])] if toks[i] == "I" else ["N", toks[i + 1][2:]]), i + 2
+        while i < len(toks):
+            t = toks[i]
+            if t in ("I", "N"):
+                x, i = item(i)
+            elif t == "S":
+                x = ["S"] + [None if v == "_" else int(v) for v in toks[i + 1:i + 4]]
+                i += 4
+            elif t == "L":
+                n, i, its = int(toks[i + 1]), i + 2, []
+                for _ in range(n):
+                    it, i = item(i)
+                    its.append(it)
+                x = ["L", its]
+            elif t == "X":
+                x, i = ["X"], i + 1
+            else:
+                raise ValueError("selector token %r" % t)
+            out.append(x)
+        return out
+
+    def parse_model(self, case, out):
+        assert out.startswith("hist "), out
+        parts = out[5:].split(" ## ")
+        ncalls = len(self.timeline(case)[0])
+        assert len(parts) == ncalls + 1 and parts[-1].startswith("store"), out
+        steps = [self.base.parse_model(self.step_case(case, k), parts[k]) for k in range(ncalls)]
+        store = self.parse_sels(parts[-1].split()[1:])
+        assert len(store) == len(case["store"]), out
+        return {"steps": steps, "store": store}
+
+    # ---- comparison -----------------------------------------------------------------------
+    def used_before(self, case, k):
+        calls = [t[0] for t in self.timeline(case)[0]]
+        c = calls[k]
+        return any(p["r"] in (c["r"], c["c"]) or p["c"] in (c["r"], c["c"]) for p in calls[:k])
+
+    def compare(self, case, impl, model):
+        tl, store = self.timeline(case)          # `store`: the caller's selectors at the end, as written
+        # what the model says the caller's objects are after the history (non-selector objects are one
+        # token in the model: they are compared with what the caller wrote)
+        want_store = [w if m == ["X"] and w[0] == "X" else m for m, w in zip(model["store"], store)]
+        if want_store != store:
+            return Verdict(DIFFERS, "model: the caller's selectors after the history are %s, written %s"
+                           % (want_store, store), {"kind": "model-store", "hist": True})
+        rewritten = None
+        first_differs = None
+        ncalls = len(tl)
+        for k, (call, cur, _) in enumerate(tl):
+            sc = self.step_case(case, k)
+            st = impl["steps"][k]
+            if st.get("orig_labels") != [list(x) for x in labels_of(sc["sys"])]:
+                return Verdict(DIFFERS, "call %d: the system is labelled %s, the case says %s (relabelling by the "
+                               "harness did not take effect)" % (k + 1, st.get("orig_labels"), labels_of(sc["sys"])),
+                               {"kind": "harness-operand", "hist": True})
+            v = self.base.compare(sc, st, model["steps"][k])
+            where = "call %d of %d (selector objects kept by the caller, %s)" % (
+                k + 1, ncalls, "used before" if self.used_before(case, k) else "first use")
+            if v.status == VIOLATES:
+                f = dict(v.features, hist="reuse" if self.used_before(case, k) else "first")
+                extra = ""
+                if rewritten is not None:
+                    f["after_rewrite"] = True
+                    extra = "; the caller's selector %s had been rewritten to %s by call %d" % rewritten
+                return Verdict(VIOLATES, where + ": " + v.detail + extra, f)
+            if v.status == DIFFERS and first_differs is None:
+                first_differs = Verdict(DIFFERS, where + ": " + v.detail, dict(v.features, hist=True))
+            if rewritten is None:
+                for j, (now, was) in enumerate(zip(st["store"], cur)):
+                    if now != was:
+                        rewritten = (sel_obj(was) if was[0] != "X" else was, now[1] if now[0] == "?" else
+                                     sel_obj(now), k + 1)
+                        rew_feat = {"kind": "selector-rewritten", "cls": sc["cls"], "sel": sel_kind(was),
+                                    "hist": True}
+                        break
+                if rewritten is None and st["bad_keys"]:
+                    bk = st["bad_keys"][0]
+                    rewritten = (bk["was"], bk["now"], k + 1)
+                    rew_feat = {"kind": "key-rewritten", "cls": sc["cls"], "hist": True}
+        if rewritten is not None:
+            return Verdict(VIOLATES, "indexing wrote into the caller's selector object: %r became %r in call %d "
+                           "(%s[...]); a later use of the object does not select what the caller wrote"
+                           % (rewritten + (case["syss"][tl[rewritten[2] - 1][0]["s"]]["cls"],)), rew_feat)
+        if first_differs is not None:
+            return first_differs
+        return Verdict(AGREE)
+
+    def nontrivial(self, case, model):
+        return any(self.used_before(case, k) for k in range(len(self.timeline(case)[0])))
+
+    def stats(self, case, impl, model):
+        calls = [t[0] for t in self.timeline(case)[0]]
+        st = {"stream": "hist", "hist_calls": len(calls),
+              "hist_edits": sum(1 for c in case["calls"] if "w" in c),
+              "hist_relabels": sum(1 for c in case["calls"] if "rl" in c),
+              "hist_classes": ">".join(case["syss"][c["s"]]["cls"] for c in calls[:2]),
+              "hist_pattern": "".join(str(c["s"]) for c in calls),
+              "hist_key": "+".join(sorted({c["kc"] for c in calls}))}
+        for x in case["store"]:
+            st["hist_kept_" + sel_kind(x)] = True
+        outs = ["err:" + m["err"] if "err" in m else "ok" for m in model["steps"]]
+        st["hist_outcomes"] = ">".join(outs[:2])
+        if any(c["r"] == c["c"] for c in calls):
+            st["hist_same_object_both_axes"] = True
+        return st
+
+    # ---- shrinking --------------------------------------------------------------------------
+    def compact(self, case):
+        """drop the systems and variables no call uses"""
+        real = [c for c in case["calls"] if "s" in c]
+        us = sorted({c["s"] for c in real})
+        uv = sorted({v for c in real for v in (c["r"], c["c"])})
+        evs = [c for c in case["calls"] if "s" in c or ("w" in c and c["w"] in uv) or ("rl" in c and c["rl"] in us)]
+        return dict(case, syss=[case["syss"][i] for i in us], store=[case["store"][i] for i in uv],
+                    calls=[dict(c, w=uv.index(c["w"])) if "w" in c else dict(c, rl=us.index(c["rl"])) if "rl" in c
+                           else dict(c, s=us.index(c["s"]), r=uv.index(c["r"]), c=uv.index(c["c"])) for c in evs])
+
+    def shrink(self, case):
+        calls = case["calls"]
+        nreal = sum(1 for c in calls if "s" in c)
+        for k in range(len(calls)):
+            if "s" not in calls[k] or nreal > 1:
+                yield self.compact(dict(case, calls=calls[:k] + calls[k + 1:]))
+        written = {c["w"] for c in calls if "w" in c}
+        for j, x in enumerate(case["store"]):
+            if x[0] == "L" and len(x[1]) > 1:
+                for k in range(len(x[1])):
+                    yield dict(case, store=case["store"][:j] + [["L", x[1][:k] + x[1][k + 1:]]] + case["store"][j + 1:])
+            elif x[0] != "I" and not (x[0] == "L" and len(x[1]) == 1) and j not in written:
+                yield dict(case, store=case["store"][:j] + [["I", 0]] + case["store"][j + 1:])
+        if case["cfg"] is not None:
+            yield dict(case, cfg=None)
+        if any(c.get("kc", "tuple") != "tuple" for c in calls):
+            yield dict(case, calls=[dict(c, kc="tuple") if "s" in c else c for c in calls])
+        for i, d in enumerate(case["syss"]):
+            for ch in ({"dt": "C"}, {"name": "P%d" % i}):
+                if d["sys"][list(ch)[0]] != list(ch.values())[0] and (list(ch)[0] == "dt" or d["sys"]["name"] is None):
+                    yield dict(case, syss=case["syss"][:i] + [dict(d, sys=dict(d["sys"], **ch))] + case["syss"][i + 1:])
+
+
+FAMILY = _sel.extend(C17, _sel.SubsysStream(), HistStream())
